@@ -25,17 +25,21 @@ CLAIMS = {
         text="spec/Trap.tla defines the sample grid per depth, pixman_sample_ceil_y/floor_y with saturation, the edge "
              "walker (pixman_edge_init/step, small/big steps, exact 64-bit arithmetic by binary decomposition) and "
              "Coverage = per pixel the number of grid samples s with lx < s <= rx on the sample rows top <= y < bottom, "
-             "added with saturation.  TLC proves on scaled lattices, for all edges of a box and all start rows, that the "
-             "walker's error term is the exact rational residue (hence x = ceil(X)-1 / floor(X) / X: left and top "
-             "inclusive, right and bottom exclusive), that the walker is path independent, and for all trapezoids of a "
-             "lattice family that horizontal and vertical splits tile, whole-pixel offsets shift, and counts equal the "
-             "geometric sample counts; models of the unrepaired walker and of wrong initial error / correction tests are "
-             "rejected.  Against the implementation: walker structs after pixman_edge_init/step and sample rows are "
-             "validated field by field; images produced by rasterize_trapezoid / add_trapezoids / add_traps / "
-             "add_triangles on a1/a4/a8 (tie-forcing lattices, far end points, sub-pixel and degenerate shapes, offsets, "
-             "pre-filled targets) must equal before (+) Coverage; abutting pairs vs union, offsets, triangles vs "
-             "decomposition and composite_trapezoids/triangles vs mask+composite32 for all operators must give equal "
-             "buffers.",
+             "added with saturation.  TLC proves on scaled lattices, for all edges of a box, all start rows (above, at, "
+             "below the upper end point) and all mixtures of row steps and pixman_edge_step jumps, that the walker's error "
+             "term is the exact rational residue (hence x = ceil(X)-1 / floor(X) / X, i.e. the count is the geometric "
+             "sample count, samples exactly on an edge line being attributed consistently to one side), that the walker "
+             "state is a function of edge and row only (path independence), and for all trapezoids of a lattice family that "
+             "horizontal and vertical splits tile, whole-pixel offsets shift, and counts lie between the strictly-inside and "
+             "inside-or-on-edge geometric counts; models of the formerly defective walker (stale error term, exact start "
+             "state, whole-slope back step) and of wrong initial error / correction tests are rejected.  Against the "
+             "implementation: walker structs after pixman_edge_init/step/line_fixed_edge_init and sample rows (incl. both "
+             "ends of the 16.16 range) are validated field by field; images produced by rasterize_trapezoid / "
+             "add_trapezoids / add_traps / add_triangles on a1/a4/a8 (tie-forcing lattices, lines through sample points, "
+             "far end points, sub-pixel and degenerate shapes, offsets, pre-filled targets) must equal before (+) Coverage "
+             "with nothing written outside the pixels; abutting pairs vs union (horizontal cut, shared edge, staggered), "
+             "offsets, triangles vs decomposition and composite_trapezoids/triangles vs mask+composite32 for all 53 "
+             "operators (direct ADD route, near-direct, bounded and unbounded operators) must give equal buffers.",
         ref="5 C12"),
 }
 
@@ -833,9 +837,10 @@ def count_events(chk, tracefile):
 
 MC_RUNS = {
     # name: (module, cfg, negative, tiers)
-    "walker": ("TrapMC", "TrapMC.cfg", False, ("quick", "thorough")),
+    "walker-quick": ("TrapMC", "TrapMC_quick.cfg", False, ("quick",)),
+    "walker": ("TrapMC", "TrapMC.cfg", False, ("thorough",)),
     "walker-d8": ("TrapMC", "TrapMC_d8.cfg", False, ("quick", "thorough")),
-    "walker-real": ("TrapMC", "TrapMC_real.cfg", False, ("quick", "thorough")),
+    "walker-real": ("TrapMC", "TrapMC_real.cfg", False, ("thorough",)),
     "walker-neg-inite": ("TrapMC", "TrapMC_neg_inite.cfg", True, ("quick", "thorough")),
     "walker-neg-corr": ("TrapMC", "TrapMC_neg_corr.cfg", True, ("quick", "thorough")),
     "walker-neg-stale": ("TrapMC", "TrapMC_neg_stale.cfg", True, ("quick", "thorough")),
@@ -852,16 +857,17 @@ MC_RUNS = {
 def mc_all(tier):
     base = os.path.join(vf.SPEC, "mc")
     todo = [(k, v) for k, v in MC_RUNS.items() if tier in v[3]]
+    todo.sort(key=lambda kv: 0 if kv[0].startswith("tile") else 1)        # the longest first
 
     def one(item):
         name, (mod, cfg, neg, _) = item
-        r = vf.tlc_mc(os.path.join(base, mod + ".tla"), cfg=os.path.join(base, cfg), workers=3, timeout=1500,
+        r = vf.tlc_mc(os.path.join(base, mod + ".tla"), cfg=os.path.join(base, cfg), workers=4, timeout=1500,
                       expect_violation=neg, tag="trapmc-" + name)
         if not neg and (r.inv_violation or r.deadlock or "is violated" in r.out or "is false" in r.out):
             raise vf.Infra("the Trap model itself violates an invariant under %s:\n%s" % (cfg, r.out[-2500:]))
         return name, neg, cfg, r
 
-    with ThreadPoolExecutor(max_workers=4) as ex:
+    with ThreadPoolExecutor(max_workers=3) as ex:
         return list(ex.map(one, todo))
 
 
@@ -872,11 +878,7 @@ def run(prop, args):
     wd = vf.workdir("trap-" + prop)
 
     # deviations: quirks of the unrepaired tree that KNOWN_FINDINGS.jsonl records as open
-    enabled = {DEV_OF_ID[r["id"]] for r in vf.known_findings(prop)
-               if r.get("status") == "open" and r.get("id") in DEV_OF_ID}
-    # VERIF_C12_DEVIATIONS=stale,exact0,backstep,wrap: try the named deviations without editing KNOWN_FINDINGS.jsonl
-    enabled |= {d for d in os.environ.get("VERIF_C12_DEVIATIONS", "").split(",") if d in DEV_OF_ID.values()}
-    enabled = sorted(enabled)
+    enabled = sorted({DEV_OF_ID[i] for i in vf.open_findings(prop) if i in DEV_OF_ID})
     cfg = os.path.join(wd, "TrapTrace.cfg")
     open(cfg, "w").write("SPECIFICATION TSpec\nCONSTANTS\n  Fixed1 = 65536\n  EnabledDeviations = {%s}\n"
                          "POSTCONDITION TraceAccepted\n" % ", ".join('"%s"' % d for d in enabled))
@@ -910,7 +912,7 @@ def run(prop, args):
         for k, v in (st or {}).items():
             stats[k] = stats.get(k, 0) + v
 
-    scale = 2 if quick else 10
+    scale = 2 if quick else 70
     behs, r = tlc_scenarios(60 if quick else 300, args.seed)
     chk.add_tlc(r, "scenario generation (TrapGen, -generate)")
     chk.sample({"tlc_generated_scenario": behs[0][:4]})
@@ -934,7 +936,7 @@ def run(prop, args):
 
     vf.log("scripts generated: %d executions, %.0fs" % (len(execs), __import__("time").time() - chk.t0))
     # 3. execute on the real library
-    nb = 12
+    nb = 12 if quick else 60
     traces = []
     for bi in range(nb):
         part = execs[bi::nb]
@@ -998,4 +1000,8 @@ def run(prop, args):
         "destination' reading is recorded as an observation only",
         "TLC/SANY and the CommunityModules Json/IOUtils readers are trusted",
     ]
-    return chk.finish()
+    rc = chk.finish()
+    if rc == 0 and not args.keep:
+        import shutil
+        shutil.rmtree(wd, ignore_errors=True)
+    return rc
